@@ -88,10 +88,15 @@ class Spec(unit.UnitSpec):
                 raw = rng.choice([rng.getrandbits(64), rng.getrandbits(32), rng.getrandbits(17), rng.randrange(0, 64),
                                   (rng.getrandbits(14) << 17) | (rng.randrange(32) << 12) | (rng.randrange(1024) << 2) | rng.choice([0, 1, 2, 3])])
                 cases.append(Case([f"desc decode {raw:#x}"]))
-            else:
+            elif r < 0.985:
                 c = rng.choice(["-", "-", "4", hex(W - 4 * rng.randrange(1, 6)), hex(4 * rng.randrange(1, 1 << 40)),
                                 hex(rng.getrandbits(64))])
                 cases.append(Case([f"desc discontig {c} {rng.choice([0, 1, 2, 5, 17])}"]))
+            else:
+                # real threads creating descriptors at once (spin start line): every create must be one atomic step, so the
+                # descriptors handed out are exactly those of threads*per sequential creates (no duplicate, no gap)
+                c = hex(4 * rng.randrange(1, 1 << 40))
+                cases.append(Case([f"desc discrace {c} {rng.choice([2, 4, 8])} {rng.choice([20, 50, 200])}"]))
         return cases
 
     def corpus(self, debug):
@@ -145,9 +150,9 @@ class Spec(unit.UnitSpec):
                     bad.append(("desc:extent", f"[{s:#x},{e:#x}): get_extent = {ext}, expected 2^41"))
                 if (hi == "true") != (e == he):
                     bad.append(("desc:top-flag", f"[{s:#x},{e:#x}): is_contiguous_hi = {hi}"))
-        elif t[1] == "discontig":
+        elif t[1] in ("discontig", "discrace"):
             c = 4 if t[2] == "-" else int(t[2], 0)
-            n = int(t[3], 0)
+            n = int(t[3], 0) * (int(t[4], 0) if t[1] == "discrace" else 1)
             if c % 4 or c == 0 or c + 4 * n > W or n == 0:
                 return []
             try:
